@@ -200,7 +200,20 @@ class Sym:
         a, b = (o, self) if swap else (self, o)
         ta, tb = _coerce2(a, b)
         if z3.is_real(ta):
-            raise Unsupported("floor division / modulo on reals")
+            # floor division of reals: the integer q with b*q <= a < b*(q+1) for b > 0 (mirror for b < 0); python returns a float
+            c = ctx()
+            if c.decide(tb == 0):
+                raise ZeroDivisionError("float floor division by zero")
+            q = z3.Int(c.fresh_name('fdiv'))
+            c.inputs[str(q)] = q
+            pos = c.decide(tb > 0)
+            if pos:
+                c._add(z3.And(tb * z3.ToReal(q) <= ta, ta < tb * (z3.ToReal(q) + 1)))
+            else:
+                c._add(z3.And(tb * z3.ToReal(q) >= ta, ta > tb * (z3.ToReal(q) + 1)))
+            if want_mod:
+                return _wrap(ta - tb * z3.ToReal(q))
+            return _wrap(z3.ToReal(q))
         tb_s = _simp(tb)
         if z3.is_int_value(tb_s):
             bv = tb_s.as_long()
